@@ -338,9 +338,12 @@ theorem exec_whereHolds_of (n : Nat) (env : Env) (wher : Expr) (scopes : List Sc
 theorem acUpdSem (env : Env) (b l : String) (trigs : List TriggerDef) (nr : Nat) (ds : List DbR) (eMd eFu eUp wher : Expr)
     (hsem : UpsertUpdSem l eMd eFu eUp wher)
     (hnb : trigs.filter (fun tr => tr.timing == .before && tr.event == .update) = [])
-    (hna : trigs.filter (fun tr => tr.timing == .after && tr.event == .update) = []) :
+    (QU : Ver → List PendingTrig)
+    (hqaU : ∀ (r : Ver) (a : AcR), r.vals = a.vals → (acMatch l ds r.vals).isSome = true → ∀ (m : Nat) (rows : List Ver) (s : St),
+      (queueAfter (m + 3) ((acT b trigs nr).withRows rows) .update ["metadata", "first_usage", "updated_at"]
+        (some (acUpdF l ds r.vals)) (some r.vals)).exec s = (.ok (), s.addQ (QU r))) :
     UpdSemJ env (acT b trigs nr) "a" "a" [SetItem.mk "metadata" eMd, SetItem.mk "first_usage" eFu, SetItem.mk "updated_at" eUp] (some wher)
-      updReturning (ds.map (fun d => [cteScope "d" dbCols d.vals])) (acMatch l ds) (acUpdF l ds) (acAccStep l ds) (fun _ => [])
+      updReturning (ds.map (fun d => [cteScope "d" dbCols d.vals])) (acMatch l ds) (acUpdF l ds) (acAccStep l ds) QU
       (fun r => ∃ a : AcR, r.vals = a.vals) where
   hmatch := by
     intro r ⟨a, hv⟩ m s _
@@ -408,9 +411,8 @@ theorem acUpdSem (env : Env) (b l : String) (trigs : List TriggerDef) (nr : Nat)
     exact exec_checkForeignKeys_ac b trigs nr rows _ s
   hbefore := hnb
   hafter := by
-    intro r _ _ k rows s _
-    rw [exec_queueAfter_none _ _ _ _ _ _ _ (by simpa [acT, Table.withRows] using hna)]
-    simp
+    intro r ⟨a, hv⟩ hm k rows s _
+    exact hqaU r a hv hm k rows s
   hacc := by
     intro r ⟨a, hv⟩ F hF m rows s acc _
     rw [hv, acMatch_vals] at hF
@@ -487,7 +489,6 @@ structure AcTblState (s : St) (b : String) (trigs : List TriggerDef) (nr : Nat) 
   fresh : Fresh s.xid s.cid rows
   inv : AcInv (latestView s.w s.xid) nr rows
   noUpdB : trigs.filter (fun tr => tr.timing == .before && tr.event == .update) = []
-  noUpdA : trigs.filter (fun tr => tr.timing == .after && tr.event == .update) = []
 
 theorem updAcc_ac_retCols (l : String) (ds : List DbR) (g : List Value → Bool) : ∀ (ts : List Ver) (acc : DmlAcc),
     (acc.retCols = [] ∨ acc.retCols = updRetCols) →
@@ -544,13 +545,18 @@ theorem exec_protoRet_upd (m : Nat) (env : Env) (b : String) (trigs : List Trigg
 
 theorem exec_updatedRows (n : Nat) (env : Env) (b l : String) (trigs : List TriggerDef) (nr : Nat) (rows : List Ver) (ds : List DbR)
     (eMd eFu eUp wher : Expr) (hsem : UpsertUpdSem l eMd eFu eUp wher) (s : St) (hst : AcTblState s b trigs nr rows)
+    (QU : Ver → List PendingTrig)
+    (hqaU : ∀ (r : Ver) (a : AcR), r.vals = a.vals → (acMatch l ds r.vals).isSome = true → ∀ (m : Nat) (rows : List Ver) (s : St),
+      (queueAfter (m + 3) ((acT b trigs nr).withRows rows) .update ["metadata", "first_usage", "updated_at"]
+        (some (acUpdF l ds r.vals)) (some r.vals)).exec s = (.ok (), s.addQ (QU r)))
     (hcte : env.ctes.lookup "data_batch" = some (dbRel ds)) :
     (execStmt (n + 7) env (Stmt.update [] b "accounts" "a"
         [SetItem.mk "metadata" eMd, SetItem.mk "first_usage" eFu, SetItem.mk "updated_at" eUp]
         [FromItem.table "" "data_batch" "d"] (some wher) updReturning)).exec s =
       (.ok { rel := { cols := updRetCols, rows := (acUpdAcc (latestView s.w s.xid) l ds rows).retRows },
              affected := (acUpdAcc (latestView s.w s.xid) l ds rows).affected },
-       s.withTable ((acT b trigs nr).withRows (acUpdRows (latestView s.w s.xid) s.xid s.cid l ds rows))) := by
+       (s.withTable ((acT b trigs nr).withRows (acUpdRows (latestView s.w s.xid) s.xid s.cid l ds rows))).addQ
+         (updQ (fun v => (acMatch l ds v).isSome) QU ((rows.filter (fun r => r.visible (latestView s.w s.xid))).reverse))) := by
   have hq : (qualify b "accounts").exec s = (.ok (acFull b), s) := by simp [qualify, hst.bne, acFull]
   have hfrom := exec_evalFromList_cte (n + 1) env "data_batch" "d" (dbRel ds) s hcte
   have hJ : (dbRel ds).rows.map (fun v => [cteScope (if ("d" : String).isEmpty then "data_batch" else "d") (dbRel ds).cols v]) =
@@ -559,7 +565,7 @@ theorem exec_updatedRows (n : Nat) (env : Env) (b l : String) (trigs : List Trig
   rw [hJ] at hfrom
   have hI := acUpdInv b trigs nr s.w s.xid s.cid hst.tx.xid hst.tx.cid l ds
   have hupd := exec_execUpdate_J (n + 1) env b "accounts" (acFull b) "a" "a" _ [FromItem.table "" "data_batch" "d"] _ _ (acT b trigs nr) _ _ _ _ _ _
-    (fun _ => True) (fun _ _ h => h) (fun _ _ h => h) (acUpdSem env b l trigs nr ds eMd eFu eUp wher hsem hst.noUpdB hst.noUpdA)
+    (fun _ => True) (fun _ _ h => h) (fun _ _ h => h) (acUpdSem env b l trigs nr ds eMd eFu eUp wher hsem hst.noUpdB QU hqaU)
     s hst.tx trivial rows hst.table rfl hq rfl hfrom hst.fresh hst.inv.ridNodup
     (fun r hr _ => hst.inv.typed r hr) (AcInv (latestView s.w s.xid) nr) hI hst.inv updRetCols
     (by
@@ -576,7 +582,6 @@ theorem exec_updatedRows (n : Nat) (env : Env) (b l : String) (trigs : List Trig
       rw [this]; rfl
     · have : (acUpdAcc (latestView s.w s.xid) l ds rows).retCols = updRetCols := h
       rw [this]; rfl
-  simp only [updQ_nil, addQ_nil] at hupd
   rw [execStmt, evalCtes]
   · simp only [exec_bind, exec_pure, hupd]
     simp only [acUpdAcc, acUpdRows] at hcols ⊢
